@@ -1017,13 +1017,6 @@ func vC19CorpusReplay(t *testing.T, tr *vC19Trace) {
 	}
 }
 
-func vC19FkeyOf(unusableScope bool) string {
-	if unusableScope {
-		return "unusable-scope-filed-shared"
-	}
-	return ""
-}
-
 // one planned query of a history
 type vC19Planned struct {
 	cl           vC19Client
@@ -1058,8 +1051,9 @@ func vC19LeakReplay(tr *vC19Trace) {
 	vC19ExecHistory(tr, b, 0, true, false, func(*ecs.Policy, [2]int) []vC19Planned { return plan }, "cache-replay-refresh")
 }
 
-// the witness of Properties.tailored_answer_never_shared_refuted (Proofs_cache.overlong_ops), replayed on
-// the real code on every run: SCOPE /33 on an IPv4 option, then a client without a subnet option
+// regression for the former finding unusable-scope-filed-shared (Proofs_cache.overlong_ops and
+// unusable_ops), replayed on the real code on every run: SCOPE /33 on an IPv4 option, resp. family 2 on
+// a 4-byte address, then a client without a subnet option, then another client of the same /24
 func vC19OverlongReplay(tr *vC19Trace) {
 	b := vC19BuildArgs{enabled: true}
 	none := func(*dns.EDNS0_SUBNET) ([]dns.EDNS0, bool) { return nil, false }
@@ -1068,11 +1062,22 @@ func vC19OverlongReplay(tr *vC19Trace) {
 	}
 	a := vC19Client{remote: vC19V4(198, 51, 100, 10), hasOPT: true,
 		opts: []dns.EDNS0{&dns.EDNS0_SUBNET{Code: dns.EDNS0SUBNET, Family: 1, SourceNetmask: 24, Address: vC19V4(203, 0, 113, 0)}}}
-	plan := []vC19Planned{
-		{cl: a, upTTL: 60, rfTTL: 60, upGen: s33, rfGen: none},
-		{cl: vC19Client{remote: vC19V4(198, 51, 100, 11), hasOPT: true}, upTTL: 60, rfTTL: 60, upGen: none, rfGen: none},
+	fam2 := func(seen *dns.EDNS0_SUBNET) ([]dns.EDNS0, bool) {
+		return []dns.EDNS0{&dns.EDNS0_SUBNET{Code: dns.EDNS0SUBNET, Family: 2, SourceNetmask: 24, SourceScope: 24, Address: vC19V4(10, 0, 0, 0)}}, true
 	}
-	vC19ExecHistory(tr, b, 0, false, false, func(*ecs.Policy, [2]int) []vC19Planned { return plan }, "cache-replay-overlong-scope")
+	a2 := a
+	a2.remote = vC19V4(198, 51, 100, 12)
+	for _, g := range []struct {
+		gen  func(*dns.EDNS0_SUBNET) ([]dns.EDNS0, bool)
+		kind string
+	}{{s33, "cache-replay-overlong-scope"}, {fam2, "cache-replay-unusable-scope"}} {
+		plan := []vC19Planned{
+			{cl: a, upTTL: 60, rfTTL: 60, upGen: g.gen, rfGen: none},
+			{cl: vC19Client{remote: vC19V4(198, 51, 100, 11), hasOPT: true}, upTTL: 60, rfTTL: 60, upGen: none, rfGen: none},
+			{cl: a2, upTTL: 60, rfTTL: 60, upGen: none, rfGen: none},
+		}
+		vC19ExecHistory(tr, b, 0, false, false, func(*ecs.Policy, [2]int) []vC19Planned { return plan }, g.kind)
+	}
 }
 
 func vC19HistoryCase(tr *vC19Trace, r *rand.Rand) {
@@ -1179,7 +1184,6 @@ func vC19ExecHistory(tr *vC19Trace, b vC19BuildArgs, ecsMax time.Duration, prefe
 	known := map[int]vC19Answer{}
 	byEntry := map[*CacheEntry]int{} // which answer an entry holds
 	goFail := ""
-	unusable := false // the first failure of this history is a declared scope the code cannot use
 	scopedHits, sharedHits, refreshes, scopedStores := 0, 0, 0, 0
 	fail := func(s string) {
 		if goFail == "" {
@@ -1303,11 +1307,17 @@ func vC19ExecHistory(tr *vC19Trace, b vC19BuildArgs, ecsMax time.Duration, prefe
 			en := fresh[0]
 			byEntry[en] = up.id
 			declared, dkind := vC19DeclaredScope(up.opts, up.hasOPT)
+			if dkind == 3 && up.seen != nil {
+				// a non-zero SCOPE nobody can interpret: the answer is tailored to somebody, so it is kept
+				// for the audience that asked — the forwarded prefix, cut to the floor like any scope
+				if a, ok := vC19AddrOfIP(up.seen.Address); ok {
+					declared = netip.PrefixFrom(a, int(up.seen.SourceNetmask))
+				}
+			}
 			eff := vC19Effective(pol, declared, up.seen)
 			known[up.id] = vC19Answer{q: names[qi], cd: cd, eff: eff}
 			if dkind == 3 && up.seen != nil && up.seen.SourceNetmask > 0 && !en.scope.IsValid() {
 				fail(fmt.Sprintf("op %d: the authority declared a non-zero SCOPE nobody can interpret (%v) for a query that carried %v; the answer is filed under the shared key", i, up.opts, up.seen))
-				unusable = true
 			}
 			if served != up.id {
 				fail(fmt.Sprintf("op %d: miss served answer %d, upstream produced %d", i, served, up.id))
@@ -1333,10 +1343,7 @@ func vC19ExecHistory(tr *vC19Trace, b vC19BuildArgs, ecsMax time.Duration, prefe
 					fail(fmt.Sprintf("op %d: upstream saw %s: %s", i, up.seen.String(), why))
 				}
 			}
-			if en.scope != eff && dkind == 2 {
-				unusable = true
-			}
-			if en.scope != eff && dkind != 3 {
+			if en.scope != eff {
 				fail(fmt.Sprintf("op %d: entry stored under scope %s, declared %s forwarded %v floor -> audience %s", i, en.scope, declared, up.seen, eff))
 			}
 			if en.scope.IsValid() {
@@ -1441,7 +1448,7 @@ func vC19ExecHistory(tr *vC19Trace, b vC19BuildArgs, ecsMax time.Duration, prefe
 	}
 	tr.emit(map[string]any{"k": k,
 		"coq":     fmt.Sprintf("CaseCache (mk_ccfg %s %d%%Z %s) [%s]", b.coq(), int64(ecsMax), vC19Bool(prefetch), strings.Join(ops, "; ")),
-		"go_fail": goFail, "fkey": vC19FkeyOf(unusable && strings.Contains(goFail, "SCOPE") || unusable && strings.Contains(goFail, "stored under scope")), "nontrivial": scopedStores > 0 || sharedHits > 0,
+		"go_fail": goFail, "nontrivial": scopedStores > 0 || sharedHits > 0,
 		"desc": map[string]any{"ecs_cfg": fmt.Sprintf("%+v", b), "cache_limit_ttl": ecsMax.String(), "prefetch": prefetch, "ops": desc}})
 }
 
